@@ -974,6 +974,9 @@ class FnEmitter:
             return []
         if k == 'bin':
             _, d, op, a, b, ty = i
+            if UF_MUL and op == 'mul' and isinstance(ty, IntTy) and ty.bits == 64 and a[0] != 'int' and b[0] != 'int':
+                # sound abstraction for proofs: 64x64 multiplication as an uninterpreted function
+                return ['%s = __CPROVER_uninterpreted_mul64(%s, %s);' % (s.declare(d, ty), V(a), V(b))]
             return ['%s = %s;' % (s.declare(d, ty), em.bin_expr(op, a, b, ty, s))]
         if k == 'icmp':
             _, d, pred, a, b = i
@@ -993,12 +996,12 @@ class FnEmitter:
             return ['%s = %s;' % (s.declare(d, ty), V(v))]
         if k == 'load':
             _, d, ty, ptr = i
-            e = '*%s' % V(ptr)
+            e = '*%s' % s.addr(ptr)
             if isinstance(ty, IntTy) and ty.bits == 1: e = '((%s) & 1)' % e
             return ['%s = %s;' % (s.declare(d, ty), e)]
         if k == 'store':
             _, v, ptr = i
-            return ['*%s = %s;' % (V(ptr), V(v))]
+            return ['*%s = %s;' % (s.addr(ptr), V(v))]
         if k == 'gep':
             _, d, bty, base, idx = i
             # result type: compute
@@ -1054,6 +1057,16 @@ class FnEmitter:
             return s.gen_call(i)
         raise NotImplementedError(k)
 
+    def addr(s, v, depth=0):
+        """address operand of a load/store: a GEP-defined local is substituted by its
+        typed access path (recursively), so that CBMC sees `*&x.f.a[i]` = a typed member /
+        index expression instead of dereferencing a pointer temporary with a symbolic
+        offset (which it can only model with byte_extract / byte_update)."""
+        if v[0] == 'local' and v[1] in s.gep_def and depth < 6:
+            bty, base, idx = s.gep_def[v[1]]
+            return s.em.gep_expr(bty, s.addr(base, depth + 1), idx, s)
+        return s.em.val(v, s)
+
     def agg_path(s, e, ty, idx):
         for ix in idx:
             r = s.em.resolve(ty)
@@ -1085,6 +1098,14 @@ class FnEmitter:
             r = s.intrinsic(name, d, rty, args, A)
             if r is not None:
                 return r
+            if name == 'vmodel_alloc':
+                # typed allocation: element type from the (first) bitcast of the result
+                hint = s.orig_ptr(args[2][0])
+                ety = hint[2].to if isinstance(hint[2], PtrTy) else None
+                c = s.declare(d, rty)
+                if ety is not None and isinstance(ety, PtrTy) and em.layout(ety.to)[0] == args[1][0][1]:
+                    return ['%s = (u8*)malloc(sizeof(%s) * %s); __CPROVER_assume(%s != 0);' % (c, em.ct(ety.to), A[0], c)]
+                raise NotImplementedError('vmodel_alloc without typed use')
             if name == 'verif_assert':
                 idv = args[1][0]
                 if idv[0] != 'int':
@@ -1288,7 +1309,9 @@ class FnEmitter:
         raise NotImplementedError('intrinsic ' + name)
 
 
-RUNTIME_NAMES = {'verif_assert', '__cxa_guard_acquire', '__cxa_guard_release', '__cxa_atexit', 'nondet_u64', 'nondet_u32', 'nondet_range', 'verif_out', 'verif_end_path'}
+RUNTIME_NAMES = {'vmodel_alloc', 'verif_assert', '__cxa_guard_acquire', '__cxa_guard_release', '__cxa_atexit', 'nondet_u64', 'nondet_u32', 'nondet_range', 'verif_out', 'verif_end_path'}
+import os
+UF_MUL = bool(os.environ.get('LL2C_UF_MUL'))
 LIBC = {'malloc', 'free', 'abort', 'memcpy', 'memmove', 'memset', 'strlen', 'memcmp', 'calloc', 'realloc', 'exit'}
 
 PRELUDE = r'''
@@ -1322,6 +1345,11 @@ unsigned long nondet_range(unsigned long lo, unsigned long hi) { u64 v = nondet_
 void verif_out(unsigned long v) { (void)v; }
 void verif_end_path(void) { __CPROVER_assume(0); }
 static inline void ll2c_move64(u64* d, const u64* s, u64 nbytes) { u64 n = nbytes >> 3; if (!__CPROVER_same_object(d, s) || __CPROVER_POINTER_OFFSET(d) <= __CPROVER_POINTER_OFFSET(s)) { for (u64 i = 0; i < n; ++i) d[i] = s[i]; } else { for (u64 i = n; i-- > 0;) d[i] = s[i]; } }
+#endif
+#ifdef __CPROVER__
+u64 __CPROVER_uninterpreted_mul64(u64, u64);
+#else
+#define __CPROVER_uninterpreted_mul64(a, b) ((u64)((a) * (b)))
 #endif
 static inline int __cxa_guard_acquire(u64* g) { return *(u8*)g == 0; }
 static inline void __cxa_guard_release(u64* g) { *(u8*)g = 1; }
